@@ -58,6 +58,13 @@ add("C16", "structured generation (rapid) and coverage-guided native fuzzing of 
     "Generated []any trees with hostile constructs (empty/single-element envelopes, CONDITION rows with missing/surplus/wrongly typed fields, non-operators, typed nils, zero Stacks, mis-cased labels) are marshalled into zero, initialised, capacity-limited and read-only receivers: no panic, nil error implies an initialised receiver, follow-up queries return, and on the well-formed subset the decoded structure matches the input entry by entry. Thorough adds 120 s of native fuzzing over the same generator via rapid.MakeFuzz. Exploration only.",
     "Trusted: the well-formedness predicate and the entry-by-entry matcher. A non-string first element may be rejected or stored (docs silent).")
 
+add("C19", "bounded-exhaustive enumeration of nil patterns + rapid-generated long/nested patterns, layered oracle with the known defect recognised by a port of the shipped algorithm",
+    "Every nil/non-nil pattern up to length 10 (thorough 12) x 6 scan limits x 4 index-option settings, plus generated patterns up to length 60/200 nested in Stacks and Condition expressions: L0 (no panic, survivors are an order-preserving selection, no growth, configuration and nil-free trees untouched) is always strict; the full property (L1) is decided per case, and an L1 failure is accepted only when the real result equals exactly what the listed, test-pinned shipped algorithm yields (KNOWN-FINDING); any other result is a VIOLATION. Exhaustive for the enumerated patterns.",
+    "Trusted: the literal port of the shipped defragmentation in c19.go (used only to recognise the known finding). TestDefrag_experimental_001 pins the lossy behaviour, so the defect is recorded, not repaired.")
+add("C20", "property testing (rapid) with before/after structural invariants (leaf sequence, confluent normal form, removed-instances-were-redundant-wrappers) + lock-ownership tracking via the verifPoint hook + native fuzzing",
+    "Generated trees biased to single-child chains with every mix of kinds, parenthetical flags, Conditions holding stacks, aliases, nil elements and mutex-enabled nodes are revealed; two reference walks through the public accessors before/after must give the same leaf/Condition sequence and the same fully-unwrapped form; only redundant wrappers may disappear; nothing appears; no panic; a lock requested while held (self-deadlock) or left held is detected deterministically through the hook. Exploration only.",
+    "Trusted: the walker and normal-form computation in c20.go; verifPoint hook events. Acyclic trees without shared instances.")
+
 NOT_YET = {}
 
 ALL = ["C%02d" % i for i in range(1, 21)]
